@@ -17,6 +17,61 @@ def pinRb (h : Hist Pins) (comp : Nat) (gC : Graph Bumps) (e : Nat) : Option Nat
     | none => none
   | none => none
 
+/-! ### inside the component cut-off window every component with reported builds stays relevant -/
+
+theorem lookup_of_mem_keys {ν} : ∀ (l : List (Nat × ν)) (k : Nat), k ∈ l.map (·.1) → ∃ v, l.lookup k = some v ∧ (k, v) ∈ l := by
+  intro l
+  induction l with
+  | nil => intro k hk; cases hk
+  | cons a l ih =>
+    intro k hk
+    obtain ⟨k', v'⟩ := a
+    rw [List.lookup_cons]
+    by_cases hkk : k = k'
+    · subst hkk; exact ⟨v', by simp, by simp⟩
+    · have : (k == k') = false := by simpa using hkk
+      rw [this]
+      simp only [List.map_cons, List.mem_cons] at hk
+      rcases hk with hk | hk
+      · exact absurd hk hkk
+      · obtain ⟨v, h1, h2⟩ := ih k hk
+        exact ⟨v, h1, List.mem_cons_of_mem _ h2⟩
+
+theorem compWindow_full {comps : List (Nat × Graph Bumps)} {h : Hist Pins} (hcw : CompWindow comps h) :
+    RelInv h (mkPlug comps) (fun rel => rel = (mkPlug comps).relInit) := by
+  apply RelInv.full
+  intro c cm hcm
+  simp only [mkPlug, stillRelevant]
+  apply List.filter_eq_self.mpr
+  intro comp hcomp
+  obtain ⟨g, hl, hmem⟩ := lookup_of_mem_keys _ comp hcomp
+  obtain ⟨m, hm, hall⟩ := hcw (comp, g) ((mem_sortBy _ _ _).mp hmem)
+  simp only [hl]
+  have hm' : g.minTs = some m := hm
+  rw [hm']
+  simpa using hall c cm hcm
+
+/-- with all components relevant `_mk_bumps_info` runs over every component with reported builds -/
+theorem mkPlug_mkBumps_full {comps : List (Nat × Graph Bumps)} {rel : List Nat}
+    (hrel : rel = (mkPlug comps).relInit) (pins : Pins) (l : List Bumps) :
+    (mkPlug comps).mkBumps rel pins l = mkBumps (sortBy (fun a b => a.1 < b.1) (relevantComps comps)) pins l := by
+  subst hrel
+  simp only [mkPlug]
+  congr 1
+  apply List.filter_eq_self.mpr
+  intro cg hcg
+  simp only [List.contains_eq_mem, List.mem_map, decide_eq_true_eq]
+  exact ⟨cg, hcg, rfl⟩
+
+theorem mkPlug_relInit_nil {comps : List (Nat × Graph Bumps)} (hnil : [] = (mkPlug comps).relInit) :
+    relevantComps comps = [] := by
+  simp only [mkPlug] at hnil
+  have h1 : sortBy (fun a b : Nat × Graph Bumps => decide (a.1 < b.1)) (relevantComps comps) = [] :=
+    List.map_eq_nil_iff.mp hnil.symm
+  have := (sortBy_perm (fun a b : Nat × Graph Bumps => decide (a.1 < b.1)) (relevantComps comps)).length_eq
+  rw [h1] at this
+  exact List.length_eq_zero_iff.mp this.symm
+
 /-- the bump recorded for a component whose pinned version is known to its `bn_map` -/
 theorem bump_of_pin {comps : List (Nat × Graph Bumps)} {comp : Nat} {gC : Graph Bumps}
     (hcomp : ∀ g', (comp, g') ∈ comps → g' = gC) (hin : (comp, gC) ∈ comps)
@@ -57,6 +112,38 @@ theorem bump_of_pin {comps : List (Nat × Graph Bumps)} {comp : Nat} {gC : Graph
       rw [h8, hlk]
     · rw [h5] at h7
       rw [h7] at hlk; simp at hlk
+
+/-- the bump recorded for a pinned component that has a non-empty `bn_map` (the pinned version may be unknown to it) -/
+theorem bump_of_pin' {comps : List (Nat × Graph Bumps)} {comp : Nat} {gC : Graph Bumps}
+    (hcomp : ∀ g', (comp, g') ∈ comps → g' = gC) (hin : (comp, gC) ∈ comps) (hne : gC.bnMapAll ≠ [])
+    {pins : Pins} {parents : List Bumps} {bumps : Bumps} {v : Ver}
+    (hmk : mkBumps (sortBy (fun a b => a.1 < b.1) (relevantComps comps)) pins parents = .ok bumps)
+    (hv : pins.lookup comp = some v) :
+    ∃ bump, bumps.lookup comp = some bump ∧ mkBump gC comp v parents = .ok bump := by
+  have hrel : (comp, gC) ∈ sortBy (fun a b : Nat × Graph Bumps => decide (a.1 < b.1)) (relevantComps comps) := by
+    apply (mem_sortBy _ _ _).mpr
+    simp only [relevantComps, List.mem_filter]
+    refine ⟨hin, ?_⟩
+    cases hb : gC.bnMapAll with
+    | nil => exact absurd hb hne
+    | cons x xs => simp
+  have hsub : ∀ g', (comp, g') ∈ sortBy (fun a b : Nat × Graph Bumps => decide (a.1 < b.1)) (relevantComps comps) →
+      g' = gC := by
+    intro g' hg'
+    have := (mem_sortBy _ _ _).mp hg'
+    simp only [relevantComps, List.mem_filter] at this
+    exact hcomp g' this.1
+  have hspec : ∀ bump, (comp, bump) ∈ bumps → mkBump gC comp v parents = .ok bump := by
+    intro bump hb
+    obtain ⟨g', v', h1, h2, h3⟩ := mkBumps_mem hmk comp bump hb
+    rw [hsub g' h1] at h3
+    rw [hv] at h2; cases h2
+    exact h3
+  obtain ⟨g', bump, h1, h2, h3⟩ := mkBumps_complete hmk comp gC v hrel hv
+  rw [hsub g' h1] at h3
+  refine ⟨bump, lookup_of_unique h2 (fun b' hb' => ?_), h3⟩
+  have := hspec b' hb'
+  rw [h3] at this; cases this; rfl
 
 theorem pinRb_bnMap_ne {h : Hist Pins} {comp : Nat} {gC : Graph Bumps} {e t : Nat}
     (hp : pinRb h comp gC e = some t) : gC.bnMapAll ≠ [] := by
